@@ -16,7 +16,7 @@ cd $wt
 demo=$(ls $src/demo_test.go $src/demo/main.go 2>/dev/null | head -1)
 place=$(head -5 "$demo" | grep -o 'place in: *[^ ]*' | head -1 | sed 's/place in: *//')
 [ -z "$place" ] && place=$(python3 -c "import json;print(json.load(open('$src/meta.json')).get('demo_dir',''))")
-democmd=$(python3 -c "import json;print(json.load(open('$src/meta.json'))['demo_cmd'])")
+democmd=$(python3 -c "import json,re;c=json.load(open('$src/meta.json'))['demo_cmd'];c=re.sub(r'^\s*cp [^&]*&&\s*','',c);print(c)")
 suite() { timeout 900 go test -vet=off -count=1 -timeout 600s ./... 2>&1 | grep -E "^(ok|FAIL|---|panic)" | sed -E 's/[0-9.]+s$//; s/\(cached\)//' | sort; }
 # baseline
 if [ ! -f /tmp/confirm-baseline.txt ]; then suite > /tmp/confirm-baseline.txt; fi
